@@ -30,7 +30,7 @@ FINISH = dict(
          "verified by OpenSSL; ECDSA components shorter than the field size are counted. (ii) flows against the "
          "mock CA: issuance for every account key type with and without nonces on GET answers, badNonce and "
          "other recoverable retries, contact updates, key roll-overs between key-type pairs (quick: 6 pairs, "
-         "thorough: all 49), external account binding; every POST of every flow (and the inner key-change and "
+         "thorough: all 42 ordered pairs of different key types), external account binding; every POST of every flow (and the inner key-change and "
          "EAB objects) becomes one record judged by Spec.C04.holds; the nonce ledger is per server. "
          "non-trivial = every JWS. (iii) py/ext/keychange.py: every POST of (ii) compared (destination, protected "
          "header text, predicted payloads, inner objects) with the call-site table Model.PostBind.siteOf, every key "
